@@ -826,7 +826,7 @@ theorem cgood_checkForConst {d : Nat} {ids : List Str} {code : List Instr} {valf
       simp only at hcf
       split at hcf
       · cases hcf
-      · rename_i hcl; simpa [Closed] using hcl
+      · rename_i hcl; simp [Closed] at hcl ⊢; exact hcl.1
     -- the run that recorded the flag returned what the run in the standard environment `compileEnv0` returns
     rw [compileRun_untracked] at hv
     have h31 := (hU 31 compileEnv0 compileEnv_std (by unfold maxDepth at hb; omega) (by decide)).1
